@@ -123,7 +123,9 @@ class Slice:
     def ref(self):
         if not self.refs_left(): raise TlbError('ref underflow')
         c = self.c.refs[self.r]; self.r += 1; return c
-    def rest_cell(self): return RCell(self.c.bits[self.b:], self.c.refs[self.r:])
+    def rest_cell(self):
+        if self.b == 0 and self.r == 0: return self.c          # the whole cell, as it is (an exotic cell stays exotic: ^Any / ^X)
+        return RCell(self.c.bits[self.b:], self.c.refs[self.r:])
 
 class Schema:
     def __init__(self, text):
